@@ -2,10 +2,12 @@
 C16 — A written CDB file returns every value, in order, and nothing else.
 
 Property theorems only; helper lemmas go to `Proofs/Cdb.lean` (hash-table core, text format) and
-`Proofs/CdbFile.lean` (byte layout of the written file, the reader's loop on the file bytes).
+`Proofs/CdbFile.lean` (byte layout of the written file, the reader's loop on the file bytes) and
+`Proofs/CdbDump.lean` (`Dump`'s loop over the record area of the written file).
 -/
 import DnsVerif.Proofs.Cdb
 import DnsVerif.Proofs.CdbFile
+import DnsVerif.Proofs.CdbDump
 
 namespace DnsVerif.Props.C16
 open DnsVerif DnsVerif.Cdb
@@ -174,5 +176,161 @@ bytes (slow: the kernel walks the 2152-byte list on every access) -/
 example : (match findAll (fileOf (writeFile es4)) [1] 0x700 with
     | .ok vs => vs == [[10], []]
     | _ => false) = true := by decide +kernel
+
+/-! ## Dump and Make: `cdbdump` of a written file, and rebuilding the file from the dump -/
+
+/-- a file that fits the format has keys and data below 2^32 bytes (so the extra size hypotheses of
+the text format are implied by `FitsU32`) -/
+theorem fits_lengths (es : List Entry) (hsz : FitsU32 es) :
+    ∀ e ∈ es, e.key.length < u32 ∧ e.val.length < u32 :=
+  lengths_lt_of_fileSize es hsz
+
+/-- **The dump of a written file lists exactly the records, in insertion order.**
+`Dump` reads the end of the record area from the first header word (the position of table 0 — for
+the empty database 2048, the end of the header: the dump is then the single empty line), walks the
+records from offset 2048 and prints `+klen,dlen:key->data\n` for each, then `\n`.  Keys and data
+may be empty, repeated, and contain any bytes; the hashes play no role. -/
+theorem dump_written (es : List Entry) (hsz : FitsU32 es) :
+    dump (writeFile es) = some (dumpText (es.map fun e => (e.key, e.val))) :=
+  dump_written_core es (by rw [writeFile_length_eq]; exact hsz)
+
+/-- `cdbdump | parse`: the (key, data) pairs `Make` reads back from the dump of a file -/
+def dumpPairs (file : Bytes) : Option (List (Bytes × Bytes)) :=
+  match dump file with
+  | some txt => makeParse (txt.length + 1) txt
+  | none => none
+
+/-- Dump → Make: dump the file, parse the text, hash every key with `H`, write and close -/
+def dumpMake (H : Bytes → Nat) (file : Bytes) : Option Bytes :=
+  match dumpPairs file with
+  | some pairs => some (writeFile (pairs.map fun kv => ⟨kv.1, kv.2, H kv.1⟩))
+  | none => none
+
+/-- parsing the dump of a written file gives back the (key, data) pairs in insertion order -/
+theorem dumpPairs_written (es : List Entry) (hsz : FitsU32 es) :
+    dumpPairs (writeFile es) = some (es.map fun e => (e.key, e.val)) := by
+  unfold dumpPairs
+  rw [dump_written es hsz]
+  exact makeParse_dumpText _ (fun p hp => by
+    obtain ⟨e, he, rfl⟩ := List.mem_map.mp hp
+    exact fits_lengths es hsz e he)
+
+/-- **Dump → Make reproduces the file byte for byte**, for a database whose entries carry the
+hashes of their keys under any hash function `H` (no condition on `H`: not even 32-bit range). -/
+theorem dump_make_roundtrip (H : Bytes → Nat) (es : List Entry) (hsz : FitsU32 es)
+    (hcons : ∀ e ∈ es, e.h = H e.key) :
+    dumpMake H (writeFile es) = some (writeFile es) := by
+  unfold dumpMake
+  rw [dumpPairs_written es hsz]
+  simp only
+  rw [List.map_map]
+  have : es.map ((fun kv : Bytes × Bytes => (⟨kv.1, kv.2, H kv.1⟩ : Entry)) ∘
+      fun e => (e.key, e.val)) = es := by
+    rw [List.map_congr_left (g := id) (fun e he => by
+      show (⟨e.key, e.val, H e.key⟩ : Entry) = e
+      rw [← hcons e he])]
+    exact List.map_id _
+  rw [this]
+
+/-- the same for a database made from (key, data) pairs with the hash function `H` -/
+theorem dump_make_roundtrip_hashfn (H : Bytes → Nat) (kvs : List (Bytes × Bytes))
+    (hsz : FitsU32 (kvs.map fun kv => ⟨kv.1, kv.2, H kv.1⟩)) :
+    dumpMake H (writeFile (kvs.map fun kv => ⟨kv.1, kv.2, H kv.1⟩))
+      = some (writeFile (kvs.map fun kv => ⟨kv.1, kv.2, H kv.1⟩)) :=
+  dump_make_roundtrip H _ hsz (fun e he => by obtain ⟨kv, _, rfl⟩ := List.mem_map.mp he; rfl)
+
+/-- **The dump lists everything the reader can find, and nothing else**: the pairs parsed from the
+dump of the written file answer every lookup — for every key, `findAll` on the file returns exactly
+the data the dump lists under that key, in the dump's order (with multiplicity). -/
+theorem dump_lists_everything (es : List Entry) (hsz : FitsU32 es) (hh : ∀ e ∈ es, e.h < u32) :
+    ∃ pairs, dumpPairs (writeFile es) = some pairs ∧
+      ∀ (key : Bytes) (hash : Nat), key.length < u32 → (∀ e ∈ es, e.key = key → e.h = hash) →
+        findAll (fileOf (writeFile es)) key hash
+          = .ok ((pairs.filter (·.1 = key)).map (·.2)) := by
+  refine ⟨_, dumpPairs_written es hsz, ?_⟩
+  intro key hash hk hkey
+  rw [find_written es key hash hsz hh hk hkey, List.filter_map, List.map_map]
+  rfl
+
+/-- membership form, for a hash function `H`: a pair is in the dump iff looking its key up in the
+file returns its data.  (`→`: every dumped pair is found — its key is necessarily shorter than 2^32;
+`←`: every value found for a key is dumped under that key.) -/
+theorem dump_mem_iff_find (H : Bytes → Nat) (hH : ∀ k, H k < u32) (kvs : List (Bytes × Bytes))
+    (hsz : FitsU32 (kvs.map fun kv => ⟨kv.1, kv.2, H kv.1⟩)) :
+    ∃ pairs, dumpPairs (writeFile (kvs.map fun kv => ⟨kv.1, kv.2, H kv.1⟩)) = some pairs ∧
+      (∀ kv ∈ pairs, ∃ vs, findAll (fileOf (writeFile (kvs.map fun kv => ⟨kv.1, kv.2, H kv.1⟩)))
+          kv.1 (H kv.1) = .ok vs ∧ kv.2 ∈ vs) ∧
+      (∀ (k : Bytes), k.length < u32 → ∀ vs,
+        findAll (fileOf (writeFile (kvs.map fun kv => ⟨kv.1, kv.2, H kv.1⟩))) k (H k) = .ok vs →
+        ∀ v ∈ vs, (k, v) ∈ pairs) := by
+  have hp := dumpPairs_written _ hsz
+  rw [List.map_map] at hp
+  have hid : kvs.map ((fun e : Entry => (e.key, e.val)) ∘
+      fun kv : Bytes × Bytes => (⟨kv.1, kv.2, H kv.1⟩ : Entry)) = kvs :=
+    (List.map_congr_left (g := id) (fun kv _ => rfl)).trans (List.map_id _)
+  rw [hid] at hp
+  refine ⟨kvs, hp, ?_, ?_⟩
+  · intro kv hkv
+    have hk : kv.1.length < u32 :=
+      (fits_lengths _ hsz ⟨kv.1, kv.2, H kv.1⟩ (List.mem_map.mpr ⟨kv, hkv, rfl⟩)).1
+    refine ⟨_, find_written_hashfn H hH kvs kv.1 hk hsz, ?_⟩
+    exact List.mem_map.mpr ⟨kv, List.mem_filter.mpr ⟨hkv, by simp⟩, rfl⟩
+  · intro k hk vs hvs v hv
+    rw [find_written_hashfn H hH kvs k hk hsz] at hvs
+    injection hvs with hvs
+    subst hvs
+    obtain ⟨kv, hkv, rfl⟩ := List.mem_map.mp hv
+    obtain ⟨hmem, hkey⟩ := List.mem_filter.mp hkv
+    have : kv.1 = k := by simpa using hkey
+    subst this
+    exact hmem
+
+/-- **`FitsU32` is needed for the dump**: one record whose end falls exactly on offset 2^32 (a key
+of 2^32 − 2056 bytes, empty data). The writer's 32-bit position wraps to 0, the header says the
+record area ends at 0, and `Dump` prints no record at all: the dump is the single empty line,
+although the file holds a record. -/
+theorem dump_overflow_loses_record (e : Entry) (hk : e.key.length = u32 - 2056) (hv : e.val = []) :
+    ¬ FitsU32 [e] ∧ dump (writeFile [e]) = some [0x0a] ∧
+      dump (writeFile [e]) ≠ some (dumpText ([e].map fun e => (e.key, e.val))) := by
+  have hv0 : e.val.length = 0 := by rw [hv]; rfl
+  have hd : dump (writeFile [e]) = some [0x0a] :=
+    dump_of_finOf_le [e] (by rw [finOf_wrap hk hv0]; decide)
+  refine ⟨?_, hd, ?_⟩
+  · unfold FitsU32
+    rw [fileSize_single, hk, hv0]
+    decide
+  · rw [hd, List.map_cons]
+    intro h
+    exact dumpText_ne_nl _ _ (Option.some.inj h).symm
+
+/-- such an entry exists (not evaluated: 4 GiB) -/
+theorem dump_overflow_witness : ∃ e : Entry, e.key.length = u32 - 2056 ∧ e.val = [] :=
+  ⟨⟨List.replicate (u32 - 2056) 0, [], 0⟩, List.length_replicate, rfl⟩
+
+/-! ### non-vacuity: the kernel evaluates the model's writer and `Dump` on small files -/
+
+/-- the empty database: 256 empty tables at 2048, the dump is the empty line -/
+example : dump (writeFile []) = some [0x0a] := by decide +kernel
+
+/-- `es4` (repeated key, empty data, all in one wrapping table): `+1,1:\x01->\x0a\n` … -/
+example : dump (writeFile es4) = some
+    [0x2b, 0x31, 0x2c, 0x31, 0x3a, 1, 0x2d, 0x3e, 10, 0x0a,
+     0x2b, 0x31, 0x2c, 0x32, 0x3a, 2, 0x2d, 0x3e, 20, 21, 0x0a,
+     0x2b, 0x31, 0x2c, 0x30, 0x3a, 1, 0x2d, 0x3e, 0x0a,
+     0x2b, 0x31, 0x2c, 0x31, 0x3a, 3, 0x2d, 0x3e, 30, 0x0a, 0x0a] := by decide +kernel
+
+/-- zero-length key and data, twice; and a key/data made of the format's own delimiters -/
+example : dumpPairs (writeFile [⟨[], [], 5⟩, ⟨[], [], 5⟩, ⟨[0x0a, 0x2b], [0x2d, 0x3e, 0x0a], 9⟩])
+    = some [([], []), ([], []), ([0x0a, 0x2b], [0x2d, 0x3e, 0x0a])] := by decide +kernel
+
+/-- the hypotheses of the theorems are satisfiable on `es4` (all hashes given by one function) -/
+example : dumpMake (fun k => if k = [3] then 0x800 else 0x700) (writeFile es4)
+    = some (writeFile es4) :=
+  dump_make_roundtrip _ es4 (by decide) (by decide)
+
+/-- independent of the theorems: the kernel runs Dump → Make on a two-record file and compares
+the 2104 bytes -/
+example : dumpMake (fun _ => 0x700) (writeFile [⟨[1], [2], 0x700⟩, ⟨[], [], 0x700⟩])
+    = some (writeFile [⟨[1], [2], 0x700⟩, ⟨[], [], 0x700⟩]) := by decide +kernel
 
 end DnsVerif.Props.C16
